@@ -489,7 +489,7 @@ func genC13Cores(w *bufio.Writer, rng *hx.Rng, tier string) {
 	// ---- hash normalizer tokenizer: every string over quotes / brackets / backslash, every mask on short ones
 	tlen := 6
 	if full {
-		tlen = 8
+		tlen = 7
 	}
 	c13AllStrings([]string{"\"", "{", "}", "\\", "a"}, tlen, func(s string) {
 		for _, mask := range []int{63, 8, 1, 9} {
